@@ -566,12 +566,28 @@ def run(ctx: Any, prog: Program) -> None:
     ok = len(comps) == 1 and isinstance(comps[0].elt, ast.Call) and isinstance(comps[0].elt.func, ast.Attribute) and comps[0].elt.func.attr == 'copy' \
         and dotted(comps[0].generators[0].iter) == 'self._value'
     ctx.check('C09.P4', ok, kv, kc, 'Keyvalues.copy must rebuild the child list from child.copy() of every child', text='deep child copy')
+    # does Keyvalues.<m>(x) store x itself?  (append does - it is documented to take ownership; extend copies)
+    def stores_argument(mname: str) -> bool:
+        m_ = kv.func('Keyvalues.' + mname)
+        prm = m_.args.args[1].arg if len(m_.args.args) > 1 else None
+        for c_ in walk_no_nested(m_):
+            if isinstance(c_, ast.Call) and isinstance(c_.func, ast.Attribute) and c_.func.attr in ('append', 'insert') and (dotted(c_.func.value) or '').endswith('_value') and c_.args \
+                    and isinstance(c_.args[-1], ast.Name) and c_.args[-1].id == prm:
+                return True
+        return False
     for name in ('__add__', '__iadd__', 'extend'):
         fn = kv.func('Keyvalues.' + name)
         for c in walk_no_nested(fn):
             if isinstance(c, ast.Call) and isinstance(c.func, ast.Attribute) and c.func.attr in ('append', 'extend', 'insert') and c.args:
                 recv = dotted(c.func.value) or ''
                 if not recv.endswith('_value'):
+                    # delegation to another Keyvalues method: fine when that method copies, or when a copy is handed over
+                    if recv in ('self', 'copy', 'result', 'new') and kv.has_func('Keyvalues.' + c.func.attr):
+                        arg = c.args[-1]
+                        handed_copy = isinstance(arg, ast.Call) and isinstance(arg.func, ast.Attribute) and arg.func.attr == 'copy'
+                        okd = handed_copy or not stores_argument(c.func.attr)
+                        ctx.check('C09.P4', okd, kv, c, f'Keyvalues.{name} delegates to {c.func.attr}(`{ast.unparse(arg)}`), and Keyvalues.{c.func.attr} stores the very object it is given: the result of the operator '
+                                  'then shares that subtree with the right operand, and editing either changes the other', func='Keyvalues.' + name, text=f'{name}: delegates {c.func.attr}({ast.unparse(arg)})')
                     continue
                 arg = c.args[-1]
                 okc = isinstance(arg, ast.Call) and isinstance(arg.func, ast.Attribute) and arg.func.attr == 'copy'
@@ -579,6 +595,8 @@ def run(ctx: Any, prog: Program) -> None:
 
 
 MUTANTS = [
+    {'id': 'kv_add_delegates_to_append', 'file': 'keyvalues.py', 'find': "                copy._value.append(other.copy())", 'replace': "                copy.append(other)", 'expect': 'C09.P4'},
+    {'id': 'kv_add_delegates_to_append_copy', 'file': 'keyvalues.py', 'find': "                copy._value.append(other.copy())", 'replace': "                copy.append(other.copy())", 'expect': None},
     {'id': 'vec_matmul_identity_returns_operand', 'file': 'math.py', 'find': "        elif isinstance(other, AngleBase):\n            mat = Py_Matrix.from_angle(other)\n        else:\n            return NotImplemented\n        res = type(self)(self._x, self._y, self._z)", 'replace': "        elif isinstance(other, AngleBase):\n            if other._pitch == 0.0 and other._yaw == 0.0 and other._roll == 0.0:\n                return self\n            mat = Py_Matrix.from_angle(other)\n        else:\n            return NotImplemented\n        res = type(self)(self._x, self._y, self._z)", 'expect': 'C09.P3'},
     {'id': 'visgroup_converter_returns_argument', 'file': 'vmf.py', 'find': "else:\n    _conv_visgroups = set\n", 'replace': "else:\n    def _conv_visgroups(x):\n        if isinstance(x, set):\n            return x\n        return set(x)\n", 'expect': 'C09.P2'},
     {'id': 'side_copy_shares_planes', 'file': 'vmf.py', 'find': "            [p.copy() for p in self.planes],", 'replace': "            list(self.planes),", 'expect': 'C09.P2'},
